@@ -508,4 +508,223 @@ theorem step_ok (E : Env) (hE : DecBounded E) (k : Call) (dl : Bytes) (hi : Inv 
     exact SubOK.weaken E _ _ _ _ (by simpa [K, stg, hs] using this)
 
 
+/-- what `loop` achieves, in the shape of `SubOKw` with any number of blocks passed -/
+def LoopOK (E : Env) (k : Call) (dl : Bytes) (k' : Call) : Ret → Prop
+  | .hint h => ∃ d o nb, k.src = d ++ k'.src ∧ k'.out = k.out ++ o ∧ k'.room + o.length = k.room ∧
+      ((h = 0 ∧ k'.c.stage = .getFrameHeader ∧ Inv k'.c ∧ ∀ f t, okEq (K E (f + nb) k.c (stg k.c ++ (d ++ (k'.src ++ t)))) (.ok (dl ++ o, k'.src ++ t))) ∨
+       (h ≠ 0 ∧ Inv k'.c ∧ Out k'.c (dl ++ o) ∧ ∀ f t, okEq (K E (f + nb) k.c (stg k.c ++ (d ++ (k'.src ++ t)))) (K E f k'.c (stg k'.c ++ (k'.src ++ t)))))
+  | .error _ => ∃ nb, ∀ f t x, K E (f + nb) k.c (stg k.c ++ (k.src ++ t)) ≠ .ok x
+  | .stuck => True
+
+theorem loop_ok (E : Env) (hE : DecBounded E) : ∀ (fuel : Nat) (k : Call) (dl : Bytes), Inv k.c → Out k.c dl →
+    LoopOK E k dl (loop E fuel k).1 (loop E fuel k).2 := by
+  intro fuel
+  induction fuel with
+  | zero => intro k dl _ _; exact True.intro
+  | succ fuel ih =>
+    intro k dl hi ho
+    have hstep := step_ok E hE k dl hi ho
+    unfold loop
+    cases hs : step E k with
+    | next k1 =>
+      rw [hs] at hstep
+      dsimp only
+      obtain ⟨d, o, b, hb, h1, h2, h3, h4, h5, h6⟩ := hstep
+      have hrec := ih k1 (dl ++ o) h4 h5
+      cases hr : (loop E fuel k1).2 with
+      | hint h =>
+        rw [hr] at hrec
+        obtain ⟨d2, o2, nb, g1, g2, g3, g4⟩ := hrec
+        refine ⟨d ++ d2, o ++ o2, nb + b, by rw [h1, g1, List.append_assoc], by rw [g2, h2, List.append_assoc], by rw [List.length_append]; omega, ?_⟩
+        rcases g4 with ⟨e0, e1, e2, e3⟩ | ⟨e0, e1, e2, e3⟩
+        · left
+          refine ⟨e0, e1, e2, ?_⟩
+          intro f t
+          have a := h6 (f + nb) t
+          have b' := e3 f t
+          rw [g1] at a
+          simp only [List.append_assoc] at a b' ⊢
+          rw [Nat.add_assoc] at a
+          exact a.trans b'
+        · right
+          refine ⟨e0, e1, by rw [← List.append_assoc]; exact e2, ?_⟩
+          intro f t
+          have a := h6 (f + nb) t
+          have b' := e3 f t
+          rw [g1] at a
+          simp only [List.append_assoc] at a b' ⊢
+          rw [Nat.add_assoc] at a
+          exact a.trans b'
+      | error e =>
+        rw [hr] at hrec
+        obtain ⟨nb, g⟩ := hrec
+        refine ⟨nb + b, ?_⟩
+        intro f t x hx
+        have a := h6 (f + nb) t
+        rw [h1] at hx
+        simp only [List.append_assoc] at a hx
+        rw [Nat.add_assoc] at a
+        exact g f t x ((a x).mp hx)
+      | stuck => exact True.intro
+    | stop k1 h =>
+      rw [hs] at hstep
+      dsimp only
+      obtain ⟨d, o, h1, h2, h3, h4⟩ := hstep
+      rcases h4 with ⟨e0, e1, e2, e3⟩ | ⟨e0, b, hb, e1, e2, e3⟩
+      · exact ⟨d, o, 0, h1, h2, h3, Or.inl ⟨e0, e1, e2, fun f t => e3 f t⟩⟩
+      · exact ⟨d, o, b, h1, h2, h3, Or.inr ⟨e0, e1, e2, fun f t => e3 f t⟩⟩
+    | fail c e =>
+      rw [hs] at hstep
+      dsimp only
+      exact ⟨0, fun f t x => hstep f t x⟩
+
+theorem skip_false (c : Ctx) : ({ c with skipChecksum := c.skipChecksum || false } : Ctx) = c := by
+  cases c; simp
+
+/-- **one call of `LZ4F_decompress`** (no `skipChecksums`) -/
+theorem decompress_ok (E : Env) (hE : DecBounded E) (c : Ctx) (src : Bytes) (cap : Nat) (dl : Bytes) (hi : Inv c) (ho : Out c dl) :
+    match (decompress E c src cap false).ret with
+    | .hint h => (decompress E c src cap false).consumed ≤ src.length ∧ (decompress E c src cap false).out.length ≤ cap ∧ ∃ nb,
+        ((h = 0 ∧ (decompress E c src cap false).c.stage = .getFrameHeader ∧ Inv (decompress E c src cap false).c ∧
+            ∀ f t, okEq (K E (f + nb) c (stg c ++ (src ++ t))) (.ok (dl ++ (decompress E c src cap false).out, src.drop (decompress E c src cap false).consumed ++ t))) ∨
+         (h ≠ 0 ∧ Inv (decompress E c src cap false).c ∧ Out (decompress E c src cap false).c (dl ++ (decompress E c src cap false).out) ∧
+            ∀ f t, okEq (K E (f + nb) c (stg c ++ (src ++ t)))
+              (K E f (decompress E c src cap false).c (stg (decompress E c src cap false).c ++ (src.drop (decompress E c src cap false).consumed ++ t)))))
+    | .error _ => ∃ nb, ∀ f t x, K E (f + nb) c (stg c ++ (src ++ t)) ≠ .ok x
+    | .stuck => True := by
+  unfold decompress
+  dsimp only
+  rw [skip_false]
+  have hl := loop_ok E hE (fuelFor src) { c := c, src := src, room := cap, out := [] } dl hi ho
+  cases hres : loop E (fuelFor src) { c := c, src := src, room := cap, out := [] } with
+  | mk k' ret =>
+    rw [hres] at hl
+    cases ret with
+    | hint h =>
+      dsimp only at hl ⊢
+      obtain ⟨d, o, nb, g1, g2, g3, g4⟩ := hl
+      dsimp only at g1 g2 g3 g4
+      have hcons : src.length - k'.src.length = d.length := by rw [g1, List.length_append]; omega
+      have hdrop : List.drop (src.length - k'.src.length) src = k'.src := by rw [hcons, g1, List.drop_left]
+      have hout : k'.out = o := by rw [g2]; rfl
+      have hroom : o.length ≤ cap := by omega
+      refine ⟨by omega, by rw [hout]; exact hroom, nb, ?_⟩
+      rw [hdrop, hout]
+      rcases g4 with ⟨e0, e1, e2, e3⟩ | ⟨e0, e1, e2, e3⟩
+      · left
+        refine ⟨e0, e1, e2, ?_⟩
+        intro f t
+        have := e3 f t
+        rw [← List.append_assoc d, ← g1] at this
+        exact this
+      · right
+        refine ⟨e0, e1, e2, ?_⟩
+        intro f t
+        have := e3 f t
+        rw [← List.append_assoc d, ← g1] at this
+        exact this
+    | error e =>
+      dsimp only at hl ⊢
+      exact hl
+    | stuck => exact True.intro
+
+/-! ## fuel monotonicity of the frame specification -/
+theorem pBodyRest_mono (E : Env) (dict : Bytes) (f d : Nat) (hdr : Header) : Le (pBodyRest E dict f hdr) (pBodyRest E dict (f + d) hdr) := by
+  unfold pBodyRest
+  exact Le.bind2 (pBlocks_mono E hdr dict [] f d) (fun _ => Le.refl _)
+
+theorem pDFrame_mono (E : Env) (dict : Bytes) (f d : Nat) : Le (pDFrame E dict f) (pDFrame E dict (f + d)) := by
+  unfold pDFrame
+  apply Le.bind
+  intro m4
+  apply Le.ite (Le.refl _)
+  apply Le.ite (Le.refl _)
+  unfold pFrameBodyZ
+  exact Le.bind (fun hdr => pBodyRest_mono E dict f d hdr)
+
+/-! ## a whole session: any schedule of (bytes offered, output capacity) -/
+inductive SessionResult
+  | pending (c : Ctx) (rest out : Bytes)      -- the schedule ended before the frame did
+  | complete (c : Ctx) (rest out : Bytes)     -- a call returned 0
+  | failed (code : Nat)
+  | stuck
+
+/-- the client loop: every call is offered the first `avail` bytes of what has not been consumed yet and `cap` bytes of room;
+    the session ends with the first call that returns 0 or an error -/
+def session (E : Env) : Ctx → Bytes → List (Nat × Nat) → Bytes → SessionResult
+  | c, rest, [], out => .pending c rest out
+  | c, rest, (avail, cap) :: sched, out =>
+    match (decompress E c (rest.take avail) cap false).ret with
+    | .hint 0 => .complete (decompress E c (rest.take avail) cap false).c (rest.drop (decompress E c (rest.take avail) cap false).consumed) (out ++ (decompress E c (rest.take avail) cap false).out)
+    | .hint _ => session E (decompress E c (rest.take avail) cap false).c (rest.drop (decompress E c (rest.take avail) cap false).consumed) sched (out ++ (decompress E c (rest.take avail) cap false).out)
+    | .error e => .failed e
+    | .stuck => .stuck
+
+/-- the state of a session: `P0 f` is the frame specification applied to the WHOLE input with block fuel `f` -/
+def SessInv (E : Env) (P0 : Nat → Except Bad (Bytes × Bytes)) (c : Ctx) (rest out : Bytes) : Prop :=
+  Inv c ∧ Out c out ∧ ∃ nb, ∀ f, okEq (P0 (f + nb)) (K E f c (stg c ++ rest))
+
+theorem session_ok (E : Env) (hE : DecBounded E) (P0 : Nat → Except Bad (Bytes × Bytes)) :
+    ∀ (sched : List (Nat × Nat)) (c : Ctx) (rest out : Bytes), SessInv E P0 c rest out →
+    match session E c rest sched out with
+    | .pending c' rest' out' => SessInv E P0 c' rest' out'
+    | .complete c' rest' out' => c'.stage = .getFrameHeader ∧ Inv c' ∧ ∃ nb, ∀ f, P0 (f + nb) = .ok (out', rest')
+    | .failed _ => ∃ nb, ∀ f x, P0 (f + nb) ≠ .ok x
+    | .stuck => True := by
+  intro sched
+  induction sched with
+  | nil => intro c rest out h; exact h
+  | cons ac sched ih =>
+    intro c rest out ⟨hi, ho, nb0, hrel⟩
+    obtain ⟨avail, cap⟩ := ac
+    have hcall := decompress_ok E hE c (rest.take avail) cap out hi ho
+    have hsplit : rest = rest.take avail ++ rest.drop avail := (List.take_append_drop _ _).symm
+    unfold session
+    cases hret : (decompress E c (rest.take avail) cap false).ret with
+    | hint h =>
+      rw [hret] at hcall
+      dsimp only at hcall
+      obtain ⟨hc, _, nb, hcases⟩ := hcall
+      have hdropg : ∀ n, n ≤ (rest.take avail).length → rest.drop n = (rest.take avail).drop n ++ rest.drop avail := by
+        intro n hn
+        have := List.drop_append_of_le_length (l₂ := rest.drop avail) hn
+        rw [List.take_append_drop] at this
+        exact this
+      have hdrop := hdropg _ hc
+      rcases hcases with ⟨e0, e1, e2, e3⟩ | ⟨e0, e1, e2, e3⟩
+      · subst e0
+        refine ⟨e1, e2, nb + nb0, ?_⟩
+        intro f
+        have a := hrel (f + nb)
+        have b := e3 f (rest.drop avail)
+        rw [← hsplit] at b
+        rw [hdrop]
+        have := (a.trans b) (out ++ (decompress E c (rest.take avail) cap false).out, (rest.take avail).drop (decompress E c (rest.take avail) cap false).consumed ++ rest.drop avail)
+        rw [Nat.add_assoc] at this
+        exact this.mpr rfl
+      · cases h with
+        | zero => exact absurd rfl e0
+        | succ h' =>
+          apply ih
+          refine ⟨e1, e2, nb + nb0, ?_⟩
+          intro f
+          have a := hrel (f + nb)
+          have b := e3 f (rest.drop avail)
+          rw [← hsplit] at b
+          rw [hdrop, ← Nat.add_assoc]
+          exact a.trans b
+    | error e =>
+      rw [hret] at hcall
+      dsimp only at hcall ⊢
+      obtain ⟨nb, hf⟩ := hcall
+      refine ⟨nb + nb0, ?_⟩
+      intro f x hx
+      have a := hrel (f + nb)
+      have b := hf f (rest.drop avail) x
+      rw [← hsplit] at b
+      rw [← Nat.add_assoc] at hx
+      exact b ((a x).mp hx)
+    | stuck => exact True.intro
+
+
 end LZ4V.Model.FrameDS
